@@ -70,6 +70,9 @@ def _cells(tier):
     return jobs
 
 
+POS_NAMES = ["down", "up", "strange", "charm", "bottom", "top"]
+
+
 def _run(job):
     from .. import model
 
@@ -104,7 +107,9 @@ def _run(job):
         if kind == "pos":
             whole = O.fold_op(proj, R.Cell(pos_charge=None, **kw), weights="semi")
             alls = O.fold_op(proj, R.Cell(pos_charge="all", **kw), weights="semi")
-            parts = [O.fold_op(proj, R.Cell(pos_charge=f"{q}W", **kw), weights="semi") for q in "duscbt"]
+            # the spellings used by the positivity data cards (extras/data/POS_*: "up", "down", "strange", ...): the restriction is
+            # defined by the first letter, whatever else the word contains
+            parts = [O.fold_op(proj, R.Cell(pos_charge=name, **kw), weights="semi") for name in POS_NAMES]
             n, bad = O.compare_sum(whole, parts)
             n2, bad2 = O.compare_sum(whole, [alls])
             # each restricted run couples to its own quark only: every hadronic coupling factor names that quark
